@@ -16,7 +16,11 @@ use crate::rng::TestRng;
 use crate::{scn, Scenario};
 
 pub fn scenarios() -> Vec<Scenario> {
-    vec![scn!(scenario_repair, 3), scn!(scenario_repair_refusals, 1)]
+    vec![
+        scn!(scenario_repair, 3),
+        scn!(scenario_repair_refusals, 1),
+        crate::wrap::scn_repair(1),
+    ]
 }
 
 /// Runs parts one and two for all helpers; returns the sigmas (in helper order) or the failing step.
